@@ -10,6 +10,12 @@ from sa.pattern import find_expr, find_stmt, has_expr, has_stmt, match_expr, mat
 SR = 'dataflows.processors.sort_rows'
 
 
+def _spec_width(spec):
+    import re as _re
+    m = _re.fullmatch(r'0(\d+)[xdXob]', spec or '')
+    return ('FIXED', int(m.group(1))) if m else ('VAR',)
+
+
 def width(ctx, fi, facts, e, depth=0):
     """Width domain of a string-building expression: ('FIXED', n) | ('VAR',) | ('CONCAT', [parts])"""
     if depth > 5:
@@ -19,13 +25,24 @@ def width(ctx, fi, facts, e, depth=0):
     if isinstance(e, ast.BinOp) and isinstance(e.op, ast.Add):
         return ('CONCAT', [width(ctx, fi, facts, e.left, depth + 1), width(ctx, fi, facts, e.right, depth + 1)])
     if isinstance(e, ast.Call) and isinstance(e.func, ast.Attribute) and e.func.attr == 'format' and \
-            isinstance(e.func.value, ast.Constant):
+            isinstance(e.func.value, ast.Constant) and isinstance(e.func.value.value, str):
         import re as _re
-        tpl = e.func.value.value
-        m = _re.fullmatch(r'\{:0(\d+)[xdXob]\}', tpl)
-        if m:
-            return ('FIXED', int(m.group(1)))
-        return ('VAR',)
+        m = _re.fullmatch(r'\{:([^{}]*)\}', e.func.value.value)
+        return _spec_width(m.group(1)) if m else ('VAR',)
+    if isinstance(e, ast.Call) and isinstance(e.func, ast.Name) and e.func.id == 'format' and len(e.args) == 2 and \
+            isinstance(e.args[1], ast.Constant) and isinstance(e.args[1].value, str):
+        return _spec_width(e.args[1].value)
+    if isinstance(e, ast.JoinedStr):
+        parts = []
+        for v in e.values:
+            if isinstance(v, ast.Constant):
+                parts.append(('FIXED', len(v.value)))
+            elif isinstance(v, ast.FormattedValue) and isinstance(v.format_spec, ast.JoinedStr) and \
+                    len(v.format_spec.values) == 1 and isinstance(v.format_spec.values[0], ast.Constant):
+                parts.append(_spec_width(v.format_spec.values[0].value))
+            else:
+                parts.append(('VAR',))
+        return ('CONCAT', parts)
     return ('VAR',)
 
 
@@ -40,83 +57,136 @@ def flat(w):
 
 def check(ctx):
     run, repo, res = ctx.run, ctx.repo, ctx.res
-    srt = repo.func(SR + ':_sorter')
-    proc = repo.func(SR + ':_sorter.process')
+    from sa.model import generator_wrapper_of, resolved_callee, returned_closure, toplevel_qualname
+    from sa.normalize import resolve_here
+    step = returned_closure(ctx, repo.func(SR + ':sort_rows'))
+    if step is None:
+        raise AnalysisError('sort_rows: package step not found')
+    srt0 = generator_wrapper_of(ctx, step)
+    # the store and the generator that feeds it
+    dbs = [pseudo(n.targets[0]) for n in own_nodes(srt0.node) if isinstance(n, ast.Assign) and isinstance(n.value, ast.Call)
+           and res.external_name(n.value) in ('kvfile.KVFile', 'kvfile.kvfile.KVFile', 'kvfile.CachedKVFile')]
+    if len(dbs) != 1:
+        raise AnalysisError('%s: the KVFile store was not found' % srt0.qualname)
+    db = dbs[0]
+    ins0 = [c for c in own_nodes(srt0.node) if isinstance(c, ast.Call) and isinstance(c.func, ast.Attribute) and c.func.attr == 'insert'
+            and pseudo(c.func.value) == db]
+    proc0 = None
+    if len(ins0) == 1 and ins0[0].args and isinstance(ins0[0].args[0], ast.Call):
+        proc0 = resolved_callee(ctx, ins0[0].args[0], srt0)
+    if proc0 is None or not proc0.is_generator:
+        raise AnalysisError('%s: the generator handed to %s.insert() was not found' % (srt0.qualname, db))
+    srt = ctx.N(srt0, keep=(proc0.qualname, proc0.node.name))
+    proc = ctx.N(proc0)
+    ident = toplevel_qualname(srt0)
     run.rule('STB', 'STABILITY/NO-LOSS: every row is stored under key = sort key + fixed-width rendering of its enumerate index (distinct '
                     'keys, so equal sort keys neither overwrite each other nor lose input order) and every stored value is yielded once')
     loops = [n for n in own_nodes(proc.node) if isinstance(n, ast.For)]
     ok = len(loops) == 1 and isinstance(loops[0].iter, ast.Call) and u(loops[0].iter.func) == 'enumerate' and \
-        pseudo(loops[0].iter.args[0]) == proc.params[0] and len(loops[0].iter.args) == 1 and not loops[0].iter.keywords
+        pseudo(loops[0].iter.args[0]) == proc.params[0] and len(loops[0].iter.args) == 1 and not loops[0].iter.keywords and \
+        isinstance(loops[0].target, ast.Tuple) and len(loops[0].target.elts) == 2
     if not ok:
         raise AnalysisError('sort_rows: `for n, row in enumerate(rows)` not found in the key generator')
     idx, row = [t.id for t in loops[0].target.elts]
     facts = Facts(proc, include_nested=False)
     ys = [y for y in ast.walk(loops[0]) if isinstance(y, ast.Yield)]
     ok = len(ys) == 1 and isinstance(ys[0].value, ast.Tuple) and len(ys[0].value.elts) == 2 and pseudo(ys[0].value.elts[1]) == row
-    run.check(ok, 'STB', proc.where, proc.qualname, 'yield (key, row) once per row', 'not every row is stored exactly once with itself as value')
+    run.check(ok, 'STB', proc.where, ident, 'yield (key, row) once per row', 'not every row is stored exactly once with itself as value')
     keyexpr = None
     if ok:
-        k = ys[0].value.elts[0]
-        vals = [k] if not pseudo(k) else facts.values_of(pseudo(k))
-        keyexpr = vals[0] if len(vals) == 1 else None
-    run.check(keyexpr is not None and idx in facts.roots(keyexpr) and row in facts.roots(keyexpr), 'STB', proc.where, proc.qualname,
+        keyexpr = resolve_here(ys[0].value.elts[0])
+        for _ in range(3):
+            keyexpr = resolve_here(keyexpr)
+    run.check(keyexpr is not None and idx in names_in(keyexpr) and row in names_in(keyexpr), 'STB', proc.where, ident,
               'key depends on the row and on its enumerate index',
               'the storage key does not contain the row number: rows with equal sort keys overwrite each other (rows lost) or lose '
               'their input order')
     exits = [n for n in ast.walk(loops[0]) if isinstance(n, (ast.Break, ast.Continue, ast.Return, ast.If))]
-    run.check(not exits, 'STB', proc.where, proc.qualname, 'unconditional loop body', 'some rows are skipped by the key generator')
+    run.check(not exits, 'STB', proc.where, ident, 'unconditional loop body', 'some rows are skipped by the key generator')
     # output loop
     outs = [n for n in own_nodes(srt.node) if isinstance(n, ast.For)]
     ok = len(outs) == 1 and isinstance(outs[0].iter, ast.Call) and isinstance(outs[0].iter.func, ast.Attribute) and \
-        outs[0].iter.func.attr == 'items' and pseudo(outs[0].iter.func.value) == 'db'
+        outs[0].iter.func.attr == 'items' and pseudo(outs[0].iter.func.value) == db and isinstance(outs[0].target, ast.Tuple) \
+        and len(outs[0].target.elts) == 2
     if ok:
         v = outs[0].target.elts[1].id
         body = outs[0].body
         ok = len(body) == 1 and isinstance(body[0], ast.Expr) and isinstance(body[0].value, ast.Yield) and pseudo(body[0].value.value) == v
-    run.check(ok, 'STB', srt.where, srt.qualname, 'for _, value in db.items(...): yield value', 'stored rows are filtered or altered on output')
+    run.check(ok, 'STB', srt.where, ident, 'for _, value in db.items(...): yield value', 'stored rows are filtered or altered on output')
     ins = [c for c in own_nodes(srt.node) if isinstance(c, ast.Call) and isinstance(c.func, ast.Attribute) and c.func.attr == 'insert'
-           and pseudo(c.func.value) == 'db']
-    ok = len(ins) == 1 and isinstance(ins[0].args[0], ast.Call) and u(ins[0].args[0].func) == proc.name and \
-        pseudo(ins[0].args[0].args[0]) == srt.params[0]
-    run.check(ok, 'STB', srt.where, srt.qualname, 'db.insert(process(rows))', 'not all rows are inserted')
+           and pseudo(c.func.value) == db]
+    ok = len(ins) == 1 and isinstance(ins[0].args[0], ast.Call) and pseudo(ins[0].args[0].func) == proc0.node.name and \
+        len(ins[0].args[0].args) == 1 and pseudo(ins[0].args[0].args[0]) == srt.params[0]
+    run.check(ok, 'STB', srt.where, ident, 'db.insert(process(rows))', 'not all rows are inserted')
     if ok and outs:
-        run.check(ins[0].lineno < outs[0].lineno, 'STB', srt.where, srt.qualname, 'insert before output', 'output starts before insertion')
+        order = [x for x in ast.walk(srt.node) if x is ins[0] or x is outs[0]]
+        blk = srt.node.body
+        pos = lambda n_: [i for i, st_ in enumerate(blk) if any(y is n_ for y in ast.walk(st_))]
+        run.check(pos(ins[0]) and pos(outs[0]) and pos(ins[0])[0] < pos(outs[0])[0], 'STB', srt.where, ident, 'insert before output',
+                  'output starts before insertion')
 
     run.rule('R20', 'OPTION-FLOW: `reverse` reaches only the iteration direction of the output loop, `batch_size` only the insert call; '
                     'neither is in the dependence set of the key')
-    kw = {k.arg: pseudo(k.value) for k in outs[0].iter.keywords} if outs else {}
-    run.check(kw.get('reverse') == 'reverse', 'R20', srt.where, srt.qualname, 'db.items(reverse=reverse)', 'reverse does not reach the output order')
+    # the wrapper's parameters by the role the step gives them: bound from the public options of sort_rows
+    calls = [c for c in own_nodes(step.node) if isinstance(c, ast.Call) and resolved_callee(ctx, c, step) is srt0]
+    bind = {}
+    if len(calls) == 1:
+        for p_, a_ in zip(srt0.params, calls[0].args):
+            bind[p_] = pseudo(a_)
+        for k in calls[0].keywords:
+            bind[k.arg] = pseudo(k.value)
+    rev_p = [p_ for p_, a_ in bind.items() if a_ == 'reverse']
+    bs_p = [p_ for p_, a_ in bind.items() if a_ == 'batch_size']
+    kc_p = [p_ for p_, a_ in bind.items() if a_ not in ('reverse', 'batch_size') and p_ != srt0.params[0]]
+    run.check(len(calls) == 1 and len(rev_p) == 1 and len(bs_p) == 1 and len(kc_p) == 1 and len(bind) == 4, 'R20', step.where,
+              toplevel_qualname(step), 'sorter(rows, key_calc, reverse, batch_size)', 'options are not handed to the sorter in their roles')
+    kw = {k.arg: pseudo(k.value) for k in outs[0].iter.keywords} if outs and isinstance(outs[0].iter, ast.Call) else {}
+    run.check(bool(rev_p) and kw.get('reverse') == rev_p[0], 'R20', srt.where, ident, 'db.items(reverse=reverse)',
+              'reverse does not reach the output order')
     kwi = {k.arg: pseudo(k.value) for k in ins[0].keywords} if ins else {}
-    run.check(kwi.get('batch_size') == 'batch_size', 'R20', srt.where, srt.qualname, 'db.insert(..., batch_size=batch_size)',
+    run.check(bool(bs_p) and kwi.get('batch_size') == bs_p[0], 'R20', srt.where, ident, 'db.insert(..., batch_size=batch_size)',
               'batch_size does not reach the insert call')
     if keyexpr is not None:
-        deps = facts.roots(keyexpr)
-        run.check('reverse' not in deps and 'batch_size' not in deps, 'R20', proc.where, proc.qualname, 'key independent of reverse / batch_size',
+        deps = names_in(keyexpr) | facts.roots(keyexpr)
+        run.check(not (set(rev_p + bs_p) & deps) and 'reverse' not in deps and 'batch_size' not in deps, 'R20', proc.where, ident,
+                  'key independent of reverse / batch_size',
                   'the key depends on reverse or batch_size: the result is no longer the exact reverse / independent of batching')
-    fn = repo.func(SR + ':sort_rows.func')
-    calls = [c for c in own_nodes(fn.node) if isinstance(c, ast.Call) and u(c.func) == '_sorter']
-    run.check(len(calls) == 1 and [pseudo(a) for a in calls[0].args] == ['rows', 'key_calc', 'reverse', 'batch_size'], 'R20', fn.where,
-              fn.qualname, '_sorter(rows, key_calc, reverse, batch_size)', 'options are not handed to the sorter in their roles')
 
     run.rule('R22', 'KEY-WIDTH: in a key that is compared as a string, a variable-width component must be last or followed by a '
                     'separator that sorts below every content character; otherwise a key that is a prefix of another sorts wrongly')
     if keyexpr is not None:
         parts = flat(width(ctx, proc, facts, keyexpr))
-        bad = [i for i, p in enumerate(parts[:-1]) if p[0] == 'VAR' and not (parts[i + 1][0] == 'FIXED' and False)]
-        run.check(not bad, 'R22', where(repo, keyexpr), proc.qualname, 'key = ' + u(keyexpr),
+        bad = [i for i, p in enumerate(parts[:-1]) if p[0] == 'VAR']
+        shape = ' + '.join('variable-width' if p[0] == 'VAR' else 'fixed(%d)' % p[1] for p in parts)
+        run.check(not bad, 'R22', where(repo, loops[0]), ident, 'storage key = ' + shape,
                   'the variable-width sort key is directly followed by the row number without a separator: with keys "a" and "a0" '
-                  'the row "a0" can sort before "a" (e.g. "a0"+"00000000" < "a"+"00000001")', detail=str(parts))
-    kc = repo.func(SR + ':KeyCalc._KeyCalc__calculator.func') if (SR + ':KeyCalc._KeyCalc__calculator.func') in repo.functions else None
-    if kc is None:
-        cands = [f for f in repo.find_funcs(module=SR, name='func') if f.all_params == ['row']]
-        if len(cands) != 1:
-            raise AnalysisError('sort_rows: key calculator function not found')
-        kc = cands[0]
-    accs = [n for n in ast.walk(kc.node) if isinstance(n, ast.AugAssign) and isinstance(n.op, ast.Add) and pseudo(n.target) == 'ret']
-    seps = [a for a in accs if any(isinstance(c, ast.Constant) and isinstance(c.value, str) and c.value for c in ast.walk(a.value))]
-    raw = [a for a in accs if u(a.value) == 'str(value)']
+                  'the row "a0" can sort before "a" (e.g. "a0"+"00000000" < "a"+"00000001")', detail=u(keyexpr))
+    # the key calculator: the function built inside class KeyCalc that maps a row to the key string
+    kcls = repo.cls(SR + ':KeyCalc')
+    cands = [f for f in repo.functions.values() if not isinstance(f.node, ast.Lambda) and f.parent is not None
+             and getattr(f.parent, 'cls', None) is kcls and len(f.all_params) == 1]
+    cands = [f for f in cands if any(isinstance(n, ast.For) for n in ast.walk(f.node))]
+    if len(cands) != 1:
+        raise AnalysisError('sort_rows: key calculator function not found')
+    kc = ctx.N(cands[0])
+    kident = toplevel_qualname(cands[0])
+    # fragments of the key: `ret += x` on the returned name, or `parts.append(x)` with `return ''.join(parts)`
+    rets = [n for n in own_nodes(kc.node) if isinstance(n, ast.Return) and n.value is not None]
+    frags = []
+    if len(rets) == 1 and pseudo(rets[0].value):
+        rn = pseudo(rets[0].value)
+        frags = [n.value for n in ast.walk(kc.node) if isinstance(n, ast.AugAssign) and isinstance(n.op, ast.Add) and pseudo(n.target) == rn]
+    elif len(rets) == 1:
+        e = match_expr("''.join(_l)", rets[0].value)
+        if e is not None:
+            frags = [c.args[0] for c in ast.walk(kc.node) if isinstance(c, ast.Call) and isinstance(c.func, ast.Attribute)
+                     and c.func.attr == 'append' and pseudo(c.func.value) == e['_l'] and len(c.args) == 1]
+    if not frags:
+        raise AnalysisError('%s: key fragments not found' % kc.qualname)
+    seps = [a for a in frags if any(isinstance(c, ast.Constant) and isinstance(c.value, str) and c.value for c in ast.walk(a))]
+    raw = [a for a in frags if match_expr('str(_v)', a) is not None]
     for a in raw:
-        run.check(False if not seps else True, 'R22', where(repo, a), kc.qualname, 'ret += str(value)',
+        run.check(bool(seps), 'R22', where(repo, a), kident, 'multi-field key: fragments str(value) concatenated',
                   'components of a multi-field key are concatenated without a separator: ("ab","c") and ("a","bc") collide and '
                   '("ab","c") sorts before ("a","z")')
     run.rule('NUM', 'NUMERIC-ENCODING (shape): raw numeric key fields are encoded as the 64-bit float pattern with the sign bit '
@@ -127,12 +197,22 @@ def check(ctx):
         b = enc[0][1]
         ok = has_expr('%s.invert(0)' % b['_b'], kc.node) and \
             has_stmt('if %s < 0:\n    %s.invert(range(1, 64))' % (b['_v'], b['_b']), kc.node) and \
-            has_stmt('%s = %s.hex' % (b['_v'], b['_b']), kc.node) and \
-            has_expr('isinstance(%s, (int, float, decimal.Decimal))' % b['_v'], kc.node)
-    run.check(ok, 'NUM', kc.where, kc.qualname, 'sign bit inverted; negatives fully inverted; hex', 'the numeric encoding no longer preserves numeric order')
-    st = repo.func(SR + ':sort_rows.func')
-    stream.r6_identity(ctx, [st])
-    stream.r6_count_agreement(ctx, [st])
+            has_stmt('%s = %s.hex' % (b['_v'], b['_b']), kc.node)
+        # guarded by the numeric-type test (the tuple may be a module constant)
+        tests = [c for c in ast.walk(kc.node) if isinstance(c, ast.Call) and u(c.func) == 'isinstance' and len(c.args) == 2
+                 and pseudo(c.args[0]) == b['_v']]
+        def types_of(e_):
+            if isinstance(e_, ast.Name):
+                for st_ in cands[0].module.tree.body:
+                    if isinstance(st_, ast.Assign) and pseudo(st_.targets[0]) == e_.id:
+                        return types_of(st_.value)
+            if isinstance(e_, ast.Tuple):
+                return sorted(u(x) for x in e_.elts)
+            return [u(e_)]
+        ok = ok and len(tests) == 1 and types_of(tests[0].args[1]) == sorted(['int', 'float', 'decimal.Decimal'])
+    run.check(ok, 'NUM', kc.where, kident, 'sign bit inverted; negatives fully inverted; hex', 'the numeric encoding no longer preserves numeric order')
+    stream.r6_identity(ctx, [step])
+    stream.r6_count_agreement(ctx, [step])
     run.trusted += ['LF5 KVFile: equal keys overwrite; items() iterates in ascending key order, reversed with reverse=True']
     run.not_decided += ['correctness of the IEEE-754 order-preserving encoding on values (ints above 2**53, -0.0)', 'unicode collation',
                         'equivalence of cached and on-disk KVFile iteration']
